@@ -3972,3 +3972,147 @@ func init() {
 			return out
 		}})
 }
+
+// FIELDNORM — once a field of a parameter has been copied into a local and that local overridden, the field is not
+// read again.
+//
+// `doubleAngle := evm.DoubleAngle; if evm.Mod1Type == SinContinuous { doubleAngle = 0 }` and
+// `scaling := evm.Scaling; if scaling == 0 { scaling = 1 }` replace a literal's field by its effective value. Storing
+// `evm.DoubleAngle` in the result afterwards brings the raw value back: equal to the effective one for every literal
+// the tests build, different for the others (the double-angle loop then runs on a polynomial built without it).
+// The same reasoning as NORMUSE, for fields of struct parameters instead of integer parameters.
+//
+// Rule: when a fresh local v is defined by exactly `p.F` (p a parameter or receiver of struct type), and v is later
+// assigned again (`v = …`), no composite literal or assignment after that second assignment stores the raw `p.F` under a
+// field of the same name F (reads of p.F in computations are not judged: an arm of a switch on the condition of the
+// override may legitimately use it).
+func scanFieldNorm(c *core.Ctx) []ob {
+	var out []ob
+	n := 0
+	c.FuncDecls(func(pk *packages.Package, file *ast.File, fd *ast.FuncDecl) {
+		if fd.Body == nil || fileIsTestSupport(c.Program, fd.Pos()) || inExamples(pk) {
+			return
+		}
+		info := pk.TypesInfo
+		fn, _ := info.Defs[fd.Name].(*types.Func)
+		if fn == nil {
+			return
+		}
+		sig := fn.Type().(*types.Signature)
+		params := map[types.Object]bool{}
+		for i := 0; i < sig.Params().Len(); i++ {
+			params[sig.Params().At(i)] = true
+		}
+		if sig.Recv() != nil {
+			params[sig.Recv()] = true
+		}
+		fkey := core.FuncKey(pk, fd)
+		type def struct {
+			v     types.Object
+			p     types.Object
+			field *types.Var
+			at    *ast.AssignStmt
+		}
+		var defs []def
+		ast.Inspect(fd.Body, func(x ast.Node) bool {
+			as, ok := x.(*ast.AssignStmt)
+			if !ok || as.Tok != token.DEFINE || len(as.Lhs) != len(as.Rhs) {
+				return true
+			}
+			for i, l := range as.Lhs {
+				id, ok := l.(*ast.Ident)
+				if !ok || info.Defs[id] == nil {
+					continue
+				}
+				se, ok := unparen(as.Rhs[i]).(*ast.SelectorExpr)
+				if !ok {
+					continue
+				}
+				pid, ok := unparen(se.X).(*ast.Ident)
+				if !ok || !params[info.Uses[pid]] {
+					continue
+				}
+				f, ok := info.Uses[se.Sel].(*types.Var)
+				if !ok || !f.IsField() {
+					continue
+				}
+				if b, ok := f.Type().Underlying().(*types.Basic); !ok || b.Info()&(types.IsNumeric|types.IsBoolean) == 0 {
+					continue
+				}
+				defs = append(defs, def{info.Defs[id], info.Uses[pid], f, as})
+			}
+			return true
+		})
+		for _, d := range defs {
+			// first re-assignment of v after its definition
+			var re *ast.AssignStmt
+			ast.Inspect(fd.Body, func(x ast.Node) bool {
+				as, ok := x.(*ast.AssignStmt)
+				if !ok || re != nil || as.Pos() <= d.at.End() || as.Tok != token.ASSIGN {
+					return true
+				}
+				for _, l := range as.Lhs {
+					if id, ok := l.(*ast.Ident); ok && info.Uses[id] == d.v {
+						re = as
+					}
+				}
+				return true
+			})
+			if re == nil {
+				continue
+			}
+			n++
+			key := fmt.Sprintf("FIELDNORM:%s#%s.%s->%s", fkey, d.p.Name(), d.field.Name(), d.v.Name())
+			var bad *ast.SelectorExpr
+			isRaw := func(e ast.Expr) *ast.SelectorExpr {
+				se, ok := unparen(e).(*ast.SelectorExpr)
+				if !ok {
+					return nil
+				}
+				if pid, ok := unparen(se.X).(*ast.Ident); ok && info.Uses[pid] == d.p && info.Uses[se.Sel] == d.field {
+					return se
+				}
+				return nil
+			}
+			ast.Inspect(fd.Body, func(x ast.Node) bool {
+				if x == nil || bad != nil || x.End() < re.End() {
+					return bad == nil
+				}
+				switch v := x.(type) {
+				case *ast.KeyValueExpr:
+					if k, ok := v.Key.(*ast.Ident); ok && k.Name == d.field.Name() && v.Pos() > re.End() {
+						bad = isRaw(v.Value)
+					}
+				case *ast.AssignStmt:
+					if v.Pos() > re.End() && len(v.Lhs) == len(v.Rhs) {
+						for i, l := range v.Lhs {
+							if se, ok := unparen(l).(*ast.SelectorExpr); ok && se.Sel.Name == d.field.Name() && bad == nil {
+								bad = isRaw(v.Rhs[i])
+							}
+						}
+					}
+				}
+				return true
+			})
+			if bad == nil {
+				out = append(out, withProps(okOb("FIELDNORM", key, c.Rel(d.at.Pos()), "the raw field is not stored under its own name after the local holding its effective value is overridden", true), propsForKey(fkey)...))
+			} else {
+				out = append(out, withProps(violOb("FIELDNORM", key, c.Rel(bad.Pos()), fmt.Sprintf("%s copies %s.%s into %s, overrides %s (%s) and later stores the raw %s.%s under the field of that name: the raw value comes back in place of the effective one", fkey, d.p.Name(), d.field.Name(), d.v.Name(), d.v.Name(), c.Rel(re.Pos()), d.p.Name(), d.field.Name())), propsForKey(fkey)...))
+			}
+		}
+	})
+	c.Stats["fieldnorm_sites"] = n
+	return out
+}
+
+func init() {
+	core.Register(&core.Rule{Name: "FIELDNORM", Wide: true, Props: []string{"C18"},
+		Doc: "when a fresh local is defined by exactly p.F (p a parameter or the receiver, F a numeric or boolean field) and later assigned again, nothing after that re-assignment stores the raw p.F under a field named F (composite literal entry or assignment)",
+		Run: func(c *core.Ctx) []ob {
+			out := scanFieldNorm(c)
+			for _, o := range control(c, "FIELDNORM", scanFieldNorm, "lvfixture.effectiveBox") {
+				out = append(out, withProps(o, "C18"))
+			}
+			return out
+		}})
+}
